@@ -124,7 +124,9 @@ def showRes (r : Except Err (List String)) : String :=
   | .ok ls => " ; ".intercalate ls
   | .error e => "ERR:" ++ e.pyClass
 
-def handleExport (o : Opts) (depth : Nat) (ts : List String) : Option String :=
+def handleExport (o : Opts) (depth : Nat) (ts0 : List String) : Option String := do
+  -- `<ntys> <type name>*` first: the type names the header imports (reserved names)
+  let (tys, ts) ← pList pStr ts0
   match ts with
   | "M" :: ts => do
     let (gname, ts) ← pStr ts
@@ -133,7 +135,7 @@ def handleExport (o : Opts) (depth : Nat) (ts : List String) : Option String :=
       | _ => (pStr ts).map (fun p => (some p.1, p.2)))
     let (ops, ts) ← pList pOpset ts
     let (g, _) ← pGraph 64 ts
-    pure (showRes (exportModel o depth ⟨gname, fname, ops, g⟩))
+    pure (showRes (exportModelT tys o depth ⟨gname, fname, ops, g⟩))
   | "MF" :: ts => do
     -- a model with model-local functions: `MF <gname> <fname|-> <nops> ops GRAPH <nfunc> (FUNC)*`
     let (gname, ts) ← pStr ts
@@ -153,7 +155,7 @@ def handleExport (o : Opts) (depth : Nat) (ts : List String) : Option String :=
       let (nodes, ts) ← pList (pNode 64) ts
       pure (⟨name, dom, ins, outs, attrs, used, ops, nodes⟩, ts)
     let (fs, _) ← pList pFunc ts
-    pure (showRes (exportModelF o depth fs ⟨gname, fname, ops, g⟩))
+    pure (showRes (exportModelF tys o depth fs ⟨gname, fname, ops, g⟩))
   | "F" :: ts => do
     let (name, ts) ← pStr ts
     let (dom, ts) ← pStr ts
@@ -168,7 +170,8 @@ def handleExport (o : Opts) (depth : Nat) (ts : List String) : Option String :=
 
 /-- `straight <opts> <depth> M …`: is the model in the fragment of `export_roundtrip_partial`, and if so the
     node list the converter is predicted to read back (`progToGraph (exportStraight …)`). -/
-def handleStraight (o : Opts) (ts : List String) : Option String :=
+def handleStraight (o : Opts) (ts0 : List String) : Option String := do
+  let (tys, ts) ← pList pStr ts0
   match ts with
   | "M" :: ts => do
     let (gname, ts) ← pStr ts
@@ -180,8 +183,8 @@ def handleStraight (o : Opts) (ts : List String) : Option String :=
     let m0 : ModelP := ⟨gname, fname, ops, g⟩
     -- initializers that are not skipped are leading Constant nodes (export_roundtrip_inits_partial)
     let m : ModelP := if noneSkipped o m0.graph then m0.unfoldInits else m0
-    if straightModel o m then
-      let g' := progToGraph (exportStraight o m)
+    if straightModel tys o m then
+      let g' := progToGraph (exportStraight tys o m)
       let showNode (n : Node) : String :=
         n.op ++ "|" ++ n.domain ++ "|" ++ comma n.ins ++ "|" ++ comma n.outs ++ "|" ++ comma (n.attrs.map (·.1))
       pure ("1 ; " ++ comma g'.inputs ++ " ; " ++ comma g'.outputs ++ " ; " ++ " ; ".intercalate (g'.nodes.map showNode))
